@@ -350,18 +350,13 @@ func HTMLEscape(dst *bytes.Buffer, src []byte) {
 
 // Valid reports whether data is a valid JSON encoding.
 func Valid(data []byte) bool {
-	var v interface{}
-	decoder := NewDecoder(bytes.NewReader(data))
-	// validity is a matter of syntax: a number need not fit a float64
-	decoder.UseNumber()
-	err := decoder.Decode(&v)
-	if err != nil {
-		return false
-	}
-	if !decoder.More() {
-		return true
-	}
-	return decoder.InputOffset() >= int64(len(data))
+	// Compact checks the whole text against the JSON grammar (it is what re-encodes
+	// the output of MarshalJSON methods); what it would write is not needed here.
+	// (Decoding the text into interface{} through a Decoder, as this function used
+	// to do, inherits the Decoder's conveniences for streams: a leading ',' or ':'
+	// is skipped, and a closing bracket behind the value ends the input.)
+	var buf bytes.Buffer
+	return encoder.Compact(&buf, data, false) == nil
 }
 
 func init() {
